@@ -1,6 +1,6 @@
 """C06 - scalar multiplication returns [k]P for every scalar and every algorithm."""
 import os
-import vlib
+import vlib, fam_consts
 from engine import Run, replay_event
 from fam_curve import CURVE, key_of, class_of, confirm_factory
 
@@ -13,6 +13,7 @@ RULE = ("cases = TLC-enumerated scalar families (small values, 2^k +- j for ever
 
 def run(tier):
     run = Run("C06", tier)
+    fam_consts.audit(run, tier)          # the numeric constants this property rests on, from the source text (MC_Consts)
     sc = vlib.scratch()
     # the recoding as a state machine with a fixed-width accumulator: all scalars of small widths
     for cfg in (["MC_Recode_b6w2TRUE", "MC_Recode_b8w4TRUE"] if tier == "quick" else ["MC_Recode_b6w2TRUE", "MC_Recode_b8w4TRUE", "MC_Recode_b10w3TRUE", "MC_Recode_b10w4TRUE"]):
